@@ -110,8 +110,9 @@ def round_sig(x, nd=6):
 class History:
     """a random history.  Attributes after generate(): demes (list of dict, graph order), migrations, pulses, Ne, bounds
     (descending times incl. 0), events {time: event}, samples [(deme, time)]"""
-    def __init__(self, rng, max_live=5, n_events=None, want_ancient=False, force=None, small_Ne=False):
+    def __init__(self, rng, max_live=5, n_events=None, want_ancient=False, force=None, small_Ne=False, cut_prob=0.45, fn_probs=(0.4, 0.35, 0.25)):
         self.rng = rng
+        self.cut_prob = cut_prob; self.fn_probs = list(fn_probs)
         self.max_live = max_live
         self.want_ancient = want_ancient
         self.force = list(force or [])
@@ -232,7 +233,7 @@ class History:
         rng = self.rng; Ne = self.Ne
         for d in self.demes:
             inner = [b for b in self.bounds if d['end_time'] < b < d['start_time']]
-            cuts = [b for b in inner if rng.random() < 0.45]
+            cuts = [b for b in inner if rng.random() < self.cut_prob]
             edges = [d['start_time']] + cuts + [d['end_time']]
             eps = []
             prev_end = None
@@ -240,7 +241,7 @@ class History:
                 if d['start_time'] == INF and a == INF:
                     fn = 'constant'
                 else:
-                    fn = ['constant', 'exponential', 'linear'][int(rng.choice(3, p=[0.4, 0.35, 0.25]))]
+                    fn = ['constant', 'exponential', 'linear'][int(rng.choice(3, p=self.fn_probs))]
                 n0 = round_sig(Ne * loguniform(rng, 0.25, 3.0), 4)
                 if d['name'] == 'd0' and a == INF: n0 = Ne
                 if prev_end is not None and rng.random() < 0.3: n0 = prev_end        # continuous size
@@ -460,6 +461,68 @@ class History:
                     fns=sorted(set(e['size_function'] for d in self.demes for e in d['epochs'])),
                     migrations=len(self.migrations), sym=sum(1 for m in self.migrations if 'demes' in m),
                     max_live=max(len(self.live_in(hi, lo)) for hi, lo in zip(self.bounds[:-1], self.bounds[1:])))
+
+# ------------------------------------------------------------------------------------------------- only-ancient samples (sliced graphs)
+SLICE_MODES = ['first', 'middle', 'last', 'boundary']
+
+def slice_history(rng, mode, sampled_target=True):
+    """a history whose demes have 2-4 epochs of mixed size functions, sampled ONLY in the past: the youngest sample time (= the time at
+    which dadi.Demes slices the graph) lies inside the first / a middle / the last epoch of a chosen multi-epoch deme, or exactly at one
+    of its epoch boundaries; that deme is itself sampled (sampled_target) or an unsampled contemporary of the sampled ones.
+    Returns (History, info) or None when the draw has no suitable deme."""
+    first = str(rng.choice(['split', 'branch', 'branch']))
+    k = int(rng.integers(4, 7))
+    force = [first] + [str(rng.choice(['none', 'none', 'none', 'pulse', 'branch'])) for _ in range(k)]
+    h = History(rng, max_live=3, n_events=k, force=force, small_Ne=True, cut_prob=0.85, fn_probs=(0.2, 0.45, 0.35))
+    cands = [d for d in h.demes if d['end_time'] == 0.0 and len(d['epochs']) >= 2]
+    if not cands: return None
+    d = cands[int(rng.integers(len(cands)))]
+    eps = d['epochs']
+    if mode == 'first': j = 0
+    elif mode == 'last': j = len(eps) - 1
+    elif mode == 'middle':
+        if len(eps) < 3: return None
+        j = int(rng.integers(1, len(eps) - 1))
+    else: j = None
+    if mode == 'boundary':
+        # an epoch boundary of the deme at which nothing structural happens
+        bs = [e['end_time'] for e in eps[:-1] if h.events.get(e['end_time'], {}).get('kind') == 'none']
+        if not bs: return None
+        ts = float(bs[int(rng.integers(len(bs)))])
+    else:
+        e = eps[j]
+        hi = min(e['start_time'], h.bounds[0] * 1.5 if e['start_time'] == INF else e['start_time']); lo = e['end_time']
+        if e['start_time'] == INF: hi = h.bounds[0] * 1.3 + 1.0
+        # strictly inside one integration interval of the epoch
+        inner = sorted([b for b in h.bounds if lo < b < hi] + [lo, hi])
+        m = int(rng.integers(len(inner) - 1))
+        ts = round_sig(inner[m] + (inner[m + 1] - inner[m]) * float(rng.uniform(0.25, 0.75)), 6)
+    alive = [x for x in h.demes if x['start_time'] > ts >= x['end_time']]
+    if d not in alive: return None
+    others = [x for x in alive if x is not d]
+    if sampled_target or not others:
+        youngest = [d] + [x for x in others if rng.random() < 0.4]
+        sampled_target = True
+    else:
+        youngest = [others[int(rng.integers(len(others)))]]
+    samples = [(x['name'], ts) for x in youngest]
+    # possibly one older sample (a frozen branch), strictly inside an interval
+    if rng.random() < 0.5:
+        ivs = [(a, b) for a, b in zip(h.bounds[:-1], h.bounds[1:]) if b >= ts]
+        rng.shuffle(ivs)
+        for a, b in ivs:
+            live = [x for x in h.demes if x['start_time'] >= a and x['end_time'] <= b]
+            t2 = round_sig(max(b, ts) + (a - max(b, ts)) * float(rng.uniform(0.3, 0.7)), 6)
+            ok = all(len(h.live_in(p, q)) + (1 if h.events.get(q, {}).get('kind') in ('split', 'branch', 'admix', 'merge') else 0) + 1 <= h.max_live + 1
+                     for p, q in zip(h.bounds[:-1], h.bounds[1:]) if ts <= q < t2)
+            if live and t2 > ts and ok:
+                samples.append((live[int(rng.integers(len(live)))]['name'], t2)); break
+    h.samples = samples
+    cut = [e for x in alive for e in x['epochs'] if e['start_time'] > ts >= e['end_time']]
+    info = dict(mode=mode, target=d['name'], target_sampled=bool(sampled_target), slice_time=ts, epochs_of_target=len(eps),
+                cut_epoch_index=(j if j is not None else -1),
+                cut_fns=sorted(set(e['size_function'] for e in cut if e['start_time'] > ts > e['end_time'])))
+    return h, info
 
 # ------------------------------------------------------------------------------------------------- random dadi programs (export)
 def draw_order(rng, d):
